@@ -10,7 +10,7 @@
 (*    P4 = _fix_labels_in_place          (label on the first statement and after every yield,     *)
 (*                                        then labels renumbered 0, 1, 2, ... in program order)   *)
 (*    P5 = _split_in_subroutines         (a new subroutine at every labelled statement)            *)
-(* MC_YieldAlgo runs the product machine of YieldMachine.tla on (flow, Pi(flow)) for every flow of *)
+(* YieldAlgoGen + YieldTrace run the product machine of YieldMachine.tla on (flow, Pi(flow)) for every flow of *)
 (* the small scope and every i: each pass preserves the behaviour of the structured flow, and P5   *)
 (* satisfies the static clauses. This module is never used as the oracle for the real code.        *)
 EXTENDS Yield
@@ -30,34 +30,34 @@ RECURSIVE LinSeq(_, _)
 
 LinIf(nd, label) ==
     IF nd.hasElse
-    THEN LET b == LinSeq(nd.body, label + 1)
-             jumpLabel == b.next
+    THEN Eager(LinSeq(nd.body, label + 1), LAMBDA b :
+         LET jumpLabel == b.next
              branch == jumpLabel + 1                  \* on_false of IfTrue / on_true of IfFalse
-             e == LinSeq(nd.els, branch)
-             done == e.next
-             ifs == IF nd.k = "ift" THEN IfS(nd.code, label, None, branch) ELSE IfS(nd.code, label, branch, None)
-         IN  R(<<ifs>> \o b.st \o <<JumpS(done, jumpLabel)>> \o e.st \o <<NoopS(done)>>, done + 1)
-    ELSE LET b == LinSeq(nd.body, label + 1)
-             done == b.next
+         IN  Eager(LinSeq(nd.els, branch), LAMBDA e :
+             LET done == e.next
+                 ifs == IF nd.k = "ift" THEN IfS(nd.code, label, None, branch) ELSE IfS(nd.code, label, branch, None)
+             IN  R(<<ifs>> \o b.st \o <<JumpS(done, jumpLabel)>> \o e.st \o <<NoopS(done)>>, done + 1)))
+    ELSE Eager(LinSeq(nd.body, label + 1), LAMBDA b :
+         LET done == b.next
              pad == IF Len(b.st) = 0 THEN <<NoopS(done)>> ELSE <<>>   \* as written; dead for well-formed flows
              ifs == IF nd.k = "ift" THEN IfS(nd.code, label, None, done) ELSE IfS(nd.code, label, done, None)
-         IN  R(<<ifs>> \o pad \o b.st \o <<NoopS(done)>>, done + 1)
+         IN  R(<<ifs>> \o pad \o b.st \o <<NoopS(done)>>, done + 1))
 
 LinFor(nd, label) ==
     LET pre == IF nd.init # 0 THEN <<CmdS(nd.init, label)>> ELSE <<>>
         ifLabel == IF nd.init # 0 THEN label + 1 ELSE label
-        b == LinSeq(nd.body, ifLabel + 1)
-        iterLabel == b.next
-        jumpLabel == iterLabel + 1
-        done == jumpLabel + 1
-    IN  R(pre \o <<IfS(nd.code, ifLabel, None, done)>> \o b.st
-          \o <<CmdS(nd.iter, iterLabel), JumpS(ifLabel, jumpLabel), NoopS(done)>>, done + 1)
+    IN  Eager(LinSeq(nd.body, ifLabel + 1), LAMBDA b :
+        LET iterLabel == b.next
+            jumpLabel == iterLabel + 1
+            done == jumpLabel + 1
+        IN  R(pre \o <<IfS(nd.code, ifLabel, None, done)>> \o b.st
+              \o <<CmdS(nd.iter, iterLabel), JumpS(ifLabel, jumpLabel), NoopS(done)>>, done + 1))
 
 LinWhile(nd, label) ==
-    LET b == LinSeq(nd.body, label + 1)
-        jumpLabel == b.next
+    Eager(LinSeq(nd.body, label + 1), LAMBDA b :
+    LET jumpLabel == b.next
         done == jumpLabel + 1
-    IN  R(<<IfS(nd.code, label, None, done)>> \o b.st \o <<JumpS(label, jumpLabel), NoopS(done)>>, done + 1)
+    IN  R(<<IfS(nd.code, label, None, done)>> \o b.st \o <<JumpS(label, jumpLabel), NoopS(done)>>, done + 1))
 
 LinNode(nd, label) ==
     (CASE nd.k = "cmd" -> R(<<CmdS(nd.code, label)>>, label + 1)
@@ -68,9 +68,10 @@ LinNode(nd, label) ==
 
 LinSeq(ns, label) ==
     IF Len(ns) = 0 THEN R(<<>>, label)
-    ELSE LET h == LinNode(ns[1], label)
-             t == LinSeq(Tail(ns), h.next)
-         IN  R(h.st \o t.st, t.next)
+    ELSE Eager(label, LAMBDA lab :
+         Eager(LinNode(ns[1], lab), LAMBDA h :
+         Eager(LinSeq(Tail(ns), h.next), LAMBDA t :
+             R(h.st \o t.st, t.next))))
 
 P1(flow) == LinSeq(flow, 0).st
 
@@ -78,8 +79,8 @@ P1(flow) == LinSeq(flow, 0).st
 (* P2: _remove_redundant_labels_in_place *)
 FlatTargets(sts) == UNION {TargetsOfStmt(sts[i]) : i \in 1..Len(sts)}
 
-P2of(sts) == LET ts == FlatTargets(sts)
-             IN  [i \in 1..Len(sts) |-> IF sts[i].label \in ts THEN sts[i] ELSE [sts[i] EXCEPT !.label = None]]
+P2of(sts) == Eager(FlatTargets(sts), LAMBDA ts :
+                 [i \in 1..Len(sts) |-> IF sts[i].label \in ts THEN sts[i] ELSE [sts[i] EXCEPT !.label = None]])
 
 -----------------------------------------------------------------------------
 (* P3: _remove_noops_in_place *)
@@ -97,32 +98,36 @@ MapAll(labels, to, map) == [x \in (DOMAIN map) \cup {labels[j] : j \in 1..Len(la
                                IF \E j \in 1..Len(labels) : labels[j] = x THEN to ELSE map[x]]
 
 \* the loop over the statements: block = labels of the pending no-op block, out = statements kept so far
-RECURSIVE NoopLoop(_, _, _, _, _)
-NoopLoop(sts, i, block, map, out) ==
+RECURSIVE NoopLoop(_, _, _)
+NoopLoop(sts, i, acc) ==      \* acc = [block, map, out]
     IF i > Len(sts)
     THEN \* a trailing block is reduced to its first no-op
-         IF Len(block) = 0 THEN [out |-> out, map |-> map]
-         ELSE [out |-> Append(out, NoopS(block[1])),
-               map |-> IF Len(block) > 1 THEN MapAll(Tail(block), block[1], map) ELSE map]
-    ELSE LET st == sts[i] IN
-         IF st.k = "noop" THEN NoopLoop(sts, i + 1, Append(block, st.label), map, out)
-         ELSE IF Len(block) = 0 THEN NoopLoop(sts, i + 1, block, map, Append(out, st))
-         ELSE LET newLabel == IF st.label = None THEN block[1] ELSE st.label
-              IN  NoopLoop(sts, i + 1, <<>>, MapAll(block, newLabel, map), Append(out, [st EXCEPT !.label = newLabel]))
+         IF Len(acc.block) = 0 THEN [out |-> acc.out, map |-> acc.map]
+         ELSE [out |-> Append(acc.out, NoopS(acc.block[1])),
+               map |-> IF Len(acc.block) > 1 THEN MapAll(Tail(acc.block), acc.block[1], acc.map) ELSE acc.map]
+    ELSE LET st == sts[i]
+             acc2 == IF st.k = "noop" THEN [acc EXCEPT !.block = Append(@, st.label)]
+                     ELSE IF Len(acc.block) = 0 THEN [acc EXCEPT !.out = Append(@, st)]
+                     ELSE LET newLabel == IF st.label = None THEN acc.block[1] ELSE st.label
+                          IN  [block |-> <<>>, map |-> MapAll(acc.block, newLabel, acc.map),
+                               out |-> Append(acc.out, [st EXCEPT !.label = newLabel])]
+         IN  Eager(acc2, LAMBDA a : NoopLoop(sts, i + 1, a))
 
-P3of(sts) == LET r == NoopLoop(Keep(sts), 1, <<>>, EmptyMap, <<>>) IN Rewire(r.out, r.map)
+P3of(sts) == Eager(Keep(sts), LAMBDA kept :
+             Eager(NoopLoop(kept, 1, [block |-> <<>>, map |-> EmptyMap, out |-> <<>>]), LAMBDA r : Rewire(r.out, r.map)))
 
 -----------------------------------------------------------------------------
 (* P4: _fix_labels_in_place *)
 MaxOf(S0) == CHOOSE m \in S0 : \A x \in S0 : x <= m
 
 \* a label on the first statement and after every yield
-RECURSIVE AfterYield(_, _, _, _)
-AfterYield(sts, i, label, out) ==
-    IF i > Len(sts) THEN out
-    ELSE IF out[i - 1].k = "yield" /\ sts[i].label = None
-         THEN AfterYield(sts, i + 1, label + 1, Append(out, [sts[i] EXCEPT !.label = label]))
-         ELSE AfterYield(sts, i + 1, label, Append(out, sts[i]))
+RECURSIVE AfterYield(_, _, _)
+AfterYield(sts, i, acc) ==      \* acc = [label, out]
+    IF i > Len(sts) THEN acc.out
+    ELSE Eager(IF acc.out[i - 1].k = "yield" /\ sts[i].label = None
+               THEN [label |-> acc.label + 1, out |-> Append(acc.out, [sts[i] EXCEPT !.label = acc.label])]
+               ELSE [label |-> acc.label, out |-> Append(acc.out, sts[i])],
+               LAMBDA a : AfterYield(sts, i + 1, a))
 
 Labelled(sts) == SelectSeq(sts, LAMBDA st : st.label # None)
 
@@ -132,29 +137,31 @@ P4of(sts) ==
     LET fresh == MaxOf({IF sts[i].label # None THEN sts[i].label ELSE 0 : i \in 1..Len(sts)}) + 1
         first == IF sts[1].label = None THEN [sts[1] EXCEPT !.label = fresh] ELSE sts[1]
         fresh2 == IF sts[1].label = None THEN fresh + 1 ELSE fresh
-        withYield == AfterYield(sts, 2, fresh2, <<first>>)
-        ls == Labelled(withYield)
-        map == [x \in {ls[j].label : j \in 1..Len(ls)} |-> (CHOOSE j \in 1..Len(ls) : ls[j].label = x /\ \A j2 \in 1..Len(ls) : ls[j2].label = x => j2 <= j) - 1]
-        relabelled == [i \in 1..Len(withYield) |->
-                          IF withYield[i].label # None THEN [withYield[i] EXCEPT !.label = map[@]] ELSE withYield[i]]
-    IN  Rewire(relabelled, map)
+    IN  Eager(AfterYield(sts, 2, [label |-> fresh2, out |-> <<first>>]), LAMBDA withYield :
+        Eager(Labelled(withYield), LAMBDA ls :
+        \* old label -> its rank among the labelled statements, in program order, from 0
+        Eager([x \in {ls[j].label : j \in 1..Len(ls)} |-> (CHOOSE j \in 1..Len(ls) : ls[j].label = x) - 1], LAMBDA map :
+        Rewire([i \in 1..Len(withYield) |->
+                   IF withYield[i].label # None THEN [withYield[i] EXCEPT !.label = map[@]] ELSE withYield[i]],
+               map))))
 
 -----------------------------------------------------------------------------
 (* P5: _split_in_subroutines *)
-RECURSIVE SplitLoop(_, _, _, _)
-SplitLoop(sts, i, block, out) ==
-    IF i > Len(sts) THEN (IF Len(block) > 0 THEN Append(out, block) ELSE out)
-    ELSE IF sts[i].label # None
-         THEN SplitLoop(sts, i + 1, <<sts[i]>>, IF Len(block) > 0 THEN Append(out, block) ELSE out)
-         ELSE SplitLoop(sts, i + 1, Append(block, sts[i]), out)
+RECURSIVE SplitLoop(_, _, _)
+SplitLoop(sts, i, acc) ==      \* acc = [block, out]
+    IF i > Len(sts) THEN (IF Len(acc.block) > 0 THEN Append(acc.out, acc.block) ELSE acc.out)
+    ELSE Eager(IF sts[i].label # None
+               THEN [block |-> <<sts[i]>>, out |-> IF Len(acc.block) > 0 THEN Append(acc.out, acc.block) ELSE acc.out]
+               ELSE [block |-> Append(acc.block, sts[i]), out |-> acc.out],
+               LAMBDA a : SplitLoop(sts, i + 1, a))
 
-P5of(sts) == SplitLoop(sts, 1, <<>>, <<>>)
+P5of(sts) == SplitLoop(sts, 1, [block |-> <<>>, out |-> <<>>])
 
 -----------------------------------------------------------------------------
-P2(flow) == P2of(P1(flow))
-P3(flow) == P3of(P2(flow))
-P4(flow) == P4of(P3(flow))
-LinearizeToSubroutines(flow) == IF Len(flow) = 0 THEN <<>> ELSE P5of(P4(flow))
+P2(flow) == Eager(P1(flow), P2of)
+P3(flow) == Eager(P2(flow), P3of)
+P4(flow) == Eager(P3(flow), P4of)
+LinearizeToSubroutines(flow) == IF Len(flow) = 0 THEN <<>> ELSE Eager(P4(flow), P5of)
 
 AsProgram(sts) == IF Len(sts) = 0 THEN <<>> ELSE <<sts>>
 Phase(flow, p) == (CASE p = 1 -> AsProgram(P1(flow))
